@@ -645,6 +645,10 @@ func (s *Server) handleRequest(req *dhcpv4.DHCPv4) (*dhcpv4.DHCPv4, error) {
 		} else if !pool.Contains(requestedIP) {
 			atomic.AddUint64(&s.naksTotal, 1)
 			return s.buildNAK(req, "IP not in pool")
+		} else if !pool.Reserve(mac, requestedIP) {
+			// Held by another client, declined, or not an assignable address
+			atomic.AddUint64(&s.naksTotal, 1)
+			return s.buildNAK(req, "IP not available")
 		}
 	}
 
